@@ -593,6 +593,9 @@ func mutants(name string, base map[string]any) []mutant {
 			m3.env = map[string]string{"__prop__" + envName: txt}
 			m3.same = true
 			add("placeholder-env-unset", p, nil, mutate(base, p, "${env:ZV_UNSET_"+envName+"}"), true)
+			// unset, although a variable whose name differs only in letter case is set
+			m4 := add("placeholder-env-unset-case-twin", p, nil, mutate(base, p, "${env:"+strings.ToLower(envName)+"}"), true)
+			m4.env = map[string]string{envName: txt}
 			add("placeholder-property-missing-key", p, nil, mutate(base, p, "${property:"+propFile+"#nosuch_ZV"+"}"), true)
 			add("placeholder-property-missing-file", p, nil, mutate(base, p, "${property:/nosuch/file#k}"), true)
 		}
